@@ -453,6 +453,27 @@ def check_no_escape(ctx, u, methods):
         ctx.fn('Image::' + sig(f))
         mt = E.may_throw(f, u)
         w = mt.get('std::out_of_range')
+        unread = None
+        if w is not None:
+            # is the escaping access indexed by a loop whose form the bounds refiner does not read
+            # (start other than 0, `!=` bound, two running indices ...)?  Then the premise is undecided, not refuted
+            import re as _re9
+            m9 = _re9.search(r'called at [^:]+:(\d+):(\d+)', str(w))
+            if m9:
+                site = next((c for c in walk(body_of(f)) if c.get('kind') == 'CXXMemberCallExpr' and c.get('_line') == int(m9.group(1)) and c.get('_col') == int(m9.group(2))), None)
+                if site is not None:
+                    known = _loop_var_bounds(site, u)
+                    for a_ in call_args(site)[:2]:
+                        for y_ in walk(a_):
+                            rd_ = ref_decl(y_) if y_.get('kind') == 'DeclRefExpr' else None
+                            vd_ = u.by_id.get((rd_ or {}).get('id')) if rd_ else None
+                            if vd_ is not None and vd_.get('kind') == 'VarDecl' and vd_['id'] not in known:
+                                lp_ = enclosing(vd_, ('ForStmt',))
+                                if lp_ is not None and for_parts(lp_)[0] is not None and any(z_ is vd_ for z_ in walk(for_parts(lp_)[0])):
+                                    unread = 'the access `%s` is indexed by `%s`, whose loop `%s` is not of the form the bounds refiner reads' % (src_text(site, 50), vd_.get('name'), src_text(lp_, 50).split('{')[0].strip())
+        if unread:
+            ctx.undecided(R, sig(f), f, unread)
+            continue
         ctx.check(w is None, R, sig(f), f, 'out_of_range cannot escape (throws: %s)' % sorted(mt),
                   'std::out_of_range can escape this drawing operation: %s' % (w or '')[:330])
     ctx.require(seen >= 25, 'drawing operations not found (%d)' % seen)
